@@ -1288,9 +1288,7 @@ fn hang_binop_expression(
             let shape = if should_hang { test_shape } else { shape };
 
             let mut new_binop = format_binop(ctx, &binop, shape);
-            if should_hang {
-                new_binop = hang_binop(ctx, binop.to_owned(), shape, &rhs);
-            }
+            let original_binop = binop.to_owned();
 
             let (lhs, rhs) = match should_hang {
                 true => {
@@ -1358,6 +1356,10 @@ fn hang_binop_expression(
                             ),
                         ),
                     };
+                    // The comments in front of the right hand side are moved in front of the operator. They are
+                    // taken from the formatted expression: it may have been given the comments of parentheses
+                    // which were removed around it
+                    new_binop = hang_binop(ctx, original_binop, shape, &rhs);
                     (
                         lhs,
                         rhs.update_leading_trivia(FormatTriviaType::Replace(Vec::new())),
@@ -1608,7 +1610,6 @@ fn format_hanging_expression_(
                 || (shape.take_last_line(&lhs) + format!("{binop}{rhs}").len()).over_budget()
             {
                 let hanging_shape = shape.reset() + strip_trivia(binop).to_string().len() + 1;
-                new_binop = hang_binop(ctx, binop.to_owned(), shape, rhs);
                 new_rhs = hang_binop_expression(
                     ctx,
                     *rhs.to_owned(),
@@ -1616,8 +1617,11 @@ fn format_hanging_expression_(
                     hanging_shape,
                     None,
                     ExpressionContext::UnaryOrBinary,
-                )
-                .update_leading_trivia(FormatTriviaType::Replace(Vec::new()));
+                );
+                // The comments in front of the right hand side are moved in front of the operator. They are taken
+                // from the formatted expression: it may have been given the comments of removed parentheses
+                new_binop = hang_binop(ctx, binop.to_owned(), shape, &new_rhs);
+                new_rhs = new_rhs.update_leading_trivia(FormatTriviaType::Replace(Vec::new()));
             }
 
             Expression::BinaryOperator {
